@@ -1,10 +1,10 @@
 SPECIFICATION Spec
 CONSTANTS
   NaN = NaN
-  Alphabet <- AlphaSim
-  MaxLen = 12
-  AppPatterns <- AppsRT
+  Alphabet <- AlphaMac3
+  MaxLen = 3
+  AppPatterns <- AppsAll
   Data0 <- D2
-  MinLen = 4
+  MinLen = 1
 INVARIANTS TypeOK CountInv UnderflowInv RefInv FreshStackInv Emit
 CHECK_DEADLOCK FALSE
